@@ -68,9 +68,18 @@ class Ctx:
         self.unknowns = 0
 
     # -- solver plumbing -------------------------------------------------------------------------------------
-    def _check(self, *extra):
+    def _check(self, *extra, timeout_ms=None):
         t = time.time()
         self.nchecks += 1
+        if timeout_ms is not None:
+            self.solver.set("timeout", timeout_ms)
+        try:
+            return self._check1(extra, t)
+        finally:
+            if timeout_ms is not None:
+                self.solver.set("timeout", CHECK_TIMEOUT_MS)
+
+    def _check1(self, extra, t):
         if extra:
             self.solver.push()
             for a in extra:
